@@ -130,3 +130,128 @@ def _rm_recorded(table, specs):
             if not ok:
                 bad.append(f'{fi.where} {fname}: store to _resources[{name}] at line {st.lineno} is not followed by a record')
     return [('', not bad, 'each pool update is recorded', '; '.join(bad))]
+
+
+# --------------------------------------------------------------------------- C14 (partial): syntactic obligations
+@scan('C14.nondeterminism_sources', ['C14'],
+      note='the only sources of nondeterminism in simprocesd/model are random.random() in Event.__init__ (tie-break weight) '
+           'and time.time() in System.simulate (printed only); no id()/hash()/uuid/os.urandom/secrets, no second RNG')
+def _nondet(table, specs):
+    allowed = {('Event', '__init__', 'random.random'), ('System', 'simulate', 'time.time')}
+    bad = []
+    from pyvc.scans import enclosing_class
+    for path, (src, tree) in sorted(table.files.items()):
+        for fn in ast.walk(tree):
+            if not isinstance(fn, ast.FunctionDef):
+                continue
+            for n in ast.walk(fn):
+                if isinstance(n, ast.Call):
+                    t = ast.unparse(n.func)
+                    root = t.split('.')[0]
+                    if root in ('random', 'time', 'uuid', 'secrets', 'os', 'datetime') or t in ('id', 'hash'):
+                        if t.startswith('os.path'):
+                            continue
+                        key = (enclosing_class(tree, n.lineno), fn.name, t)
+                        if key not in allowed and not (key[1] == '_export_trace'):
+                            bad.append(f'{path}:{n.lineno} {t}() in {key[0]}.{key[1]}')
+    out = [('calls', not bad, 'no call into random/time/uuid/secrets/os/id/hash except the two known ones', '; '.join(bad))]
+    # time.time() values must only reach print()
+    fi = table.get_function('System.simulate')
+    leak = []
+    if fi is not None:
+        tainted = set()
+        for n in ast.walk(fi.node):
+            if isinstance(n, ast.Assign) and isinstance(n.value, ast.Call) and ast.unparse(n.value.func) == 'time.time':
+                tainted |= {t.id for t in n.targets if isinstance(t, ast.Name)}
+        for n in ast.walk(fi.node):
+            if isinstance(n, ast.Name) and n.id in tainted and isinstance(n.ctx, ast.Load):
+                # every use must sit inside a print(...) call
+                ok = False
+                for p in ast.walk(fi.node):
+                    if isinstance(p, ast.Call) and isinstance(p.func, ast.Name) and p.func.id == 'print' and \
+                            any(x is n for x in ast.walk(p)):
+                        ok = True
+                if not ok:
+                    leak.append(f'line {n.lineno}: {n.id}')
+    out.append(('wallclock_only_printed', not leak, 'wall-clock readings in System.simulate flow only into print()',
+                '; '.join(leak)))
+    # iteration over sets (arbitrary order) in model code
+    sets = []
+    for path, (src, tree) in sorted(table.files.items()):
+        for n in ast.walk(tree):
+            if isinstance(n, (ast.For, ast.comprehension)):
+                it = n.iter
+                if isinstance(it, ast.Call) and isinstance(it.func, ast.Name) and it.func.id in ('set', 'frozenset'):
+                    sets.append(f'{path}:{it.lineno}')
+                if isinstance(it, ast.Name):
+                    # a name bound to set(...) earlier in the same function
+                    pass
+    # default arguments evaluated once at import and shared by every call (state leaking from one run into the next)
+    shared = []
+    for path, (src, tree) in sorted(table.files.items()):
+        for fn in ast.walk(tree):
+            if isinstance(fn, ast.FunctionDef):
+                for d in fn.args.defaults + [x for x in fn.args.kw_defaults if x is not None]:
+                    if isinstance(d, (ast.List, ast.Dict, ast.Set)) or \
+                            (isinstance(d, ast.Call) and ast.unparse(d) not in ("float('inf')", 'float("inf")')):
+                        shared.append(f'{path}:{d.lineno} {fn.name}(... = {ast.unparse(d)})')
+    out.append(('no_shared_mutable_defaults', not shared,
+                'no default argument is a mutable object or a call evaluated once at import', '; '.join(shared)))
+    known = [s_ for s_ in sets]
+    out.append(('no_set_iteration_in_loops', not known, 'no loop iterates directly over a set(...) expression', '; '.join(known)))
+    return out
+
+
+@scan('C14.simulate_multiple_times_index_order', ['C14'],
+      note='both branches of System.simulate_multiple_times build the result in index order (structure check of the real AST)')
+def _smt_order(table, specs):
+    fi = table.get_function('System.simulate_multiple_times')
+    if fi is None:
+        return [('', False, 'System.simulate_multiple_times exists', 'function not found')]
+    src = ast.unparse(fi.node)
+    out = []
+    # branch 1: a list comprehension over range(number_of_simulations) whose element is the helper called with i
+    comp_ok = False
+    for n in ast.walk(fi.node):
+        if isinstance(n, ast.Return) and isinstance(n.value, ast.ListComp):
+            lc = n.value
+            g = lc.generators[0]
+            if len(lc.generators) == 1 and not g.ifs and ast.unparse(g.iter) == 'range(number_of_simulations)' and \
+                    isinstance(g.target, ast.Name) and isinstance(lc.elt, ast.Call) and \
+                    ast.unparse(lc.elt.func) == 'System._simulation_helper' and len(lc.elt.args) >= 2 and \
+                    ast.unparse(lc.elt.args[0]) == 'simulation' and ast.unparse(lc.elt.args[1]) == g.target.id:
+                comp_ok = True
+    out.append(('in_process_branch', comp_ok,
+                'in-process branch returns [helper(simulation, i, ...) for i in range(number_of_simulations)]', src[:0]))
+    # branch 2: futures appended in index order, results collected by index in index order
+    loops = [n for n in ast.walk(fi.node) if isinstance(n, ast.For)]
+    sub_ok = res_ok = False
+    for l in loops:
+        if ast.unparse(l.iter) == 'range(number_of_simulations)' and isinstance(l.target, ast.Name) and len(l.body) == 1:
+            b = ast.unparse(l.body[0])
+            i = l.target.id
+            if b.startswith('futures.append(thread_pool.submit(System._simulation_helper, simulation, ' + i):
+                sub_ok = True
+            if b.startswith(f'systems.append(futures[{i}].result('):
+                res_ok = True
+    ret_ok = any(isinstance(n, ast.Return) and ast.unparse(n.value) == 'systems' for n in ast.walk(fi.node) if isinstance(n, ast.Return) and n.value is not None)
+    out.append(('pool_branch_submits_in_index_order', sub_ok, 'futures.append(submit(helper, simulation, i, ...)) for i in range(n)', ''))
+    out.append(('pool_branch_collects_by_index', res_ok and ret_ok, 'systems.append(futures[i].result(...)) for i in range(n); return systems', ''))
+    hf = table.get_function('System._simulation_helper')
+    h_ok = False
+    if hf is not None:
+        body = [ast.unparse(s_) for s_ in source_strip(hf.node.body)]
+        h_ok = body == ['new_system = System()', 'simulation(new_system, index, *args, **kwargs)', 'return new_system']
+    out.append(('helper_returns_the_fresh_system', h_ok, '_simulation_helper creates a System, passes it with the index, returns it', ''))
+    return out
+
+
+def source_strip(body):
+    from pyvc.source import strip_doc
+    return strip_doc(body)
+
+
+@scan('frame.maintainer_private_state', ['C12'],
+      note='work-order lists and utilisation are written only by Maintainer')
+def _maint_private(table, specs):
+    return private_state_scan(table, ['_request_queue', '_active_requests', '_utilization'], {'Maintainer'})
